@@ -74,3 +74,69 @@ def jobs(tier):
                         must_have=['postcondition', 'loop_invariant_step', 'loop_decreases', 'pointer_dereference'],
                         clause='64-bit integer formatting writes only inside its 20-unit buffer, terminates and produces 1..20 units'))
     return out
+
+
+# ---- realToString: non-finite values and zero (the finite-value digit pipeline is cut: not decided) ---------------------------------
+R2S = 'Digit_realToString__double_QV_GStream__char_unsigned_long_long'
+QR2S = 'Qentem::Digit::realToString<double, QV::GStream<char>, unsigned long long>'
+W_ = 'QV_GStream__char_Write'
+AP_ = 'QV_GStream__char_op_add_assign'
+LEN_ = 'QV_GStream__char_Length'
+B2S = 'Digit_bigIntToString__QV_GStream__char_BigInt__unsigned_long_long_1216'
+FIX0 = 'Digit_formatStringNumberFixed__0_QV_GStream__char'
+FIX1 = 'Digit_formatStringNumberFixed__m1_QV_GStream__char'
+FDEF = 'Digit_formatStringNumberDefault__QV_GStream__char'
+ZL = 'Digit_insertZerosLarge__QV_GStream__char'
+GHR = [('unsigned int', 'g_n')] + [('unsigned int', 'g_u%d' % i) for i in range(4)] + [('unsigned int', 'g_zeros'), ('unsigned int', 'g_zero_calls')]
+
+
+def _rec(i, val):
+    return ['(__CPROVER_old(g_n) <= %d && %d < __CPROVER_old(g_n) + (%s)) ==> g_u%d == %s' % (i, i, 'LEN', i, val(i)),
+            '!(__CPROVER_old(g_n) <= %d && %d < __CPROVER_old(g_n) + (%s)) ==> g_u%d == __CPROVER_old(g_u%d)' % (i, i, 'LEN', i, i)]
+
+
+def r2s_jobs():
+    out = []
+    ap = dict(requires=['1 == 1'], assigns=['g_n', 'g_u0', 'g_u1', 'g_u2', 'g_u3'],
+              ensures=['g_n == __CPROVER_old(g_n) + 1'] + sum([[e.replace('LEN', '1') for e in _rec(i, lambda i: '(unsigned int)(unsigned char)ch')] for i in range(4)], []))
+    wr = dict(requires=['length == 0 || __CPROVER_r_ok(str, length)', 'length <= 4'], assigns=['g_n', 'g_u0', 'g_u1', 'g_u2', 'g_u3'],
+              ensures=['g_n == __CPROVER_old(g_n) + length'] + sum([[e.replace('LEN', 'length') for e in _rec(i, lambda i: '(unsigned int)(unsigned char)str[%d - __CPROVER_old(g_n)]' % i)] for i in range(4)], []))
+    zl = dict(requires=['1 == 1'], assigns=['g_zeros', 'g_zero_calls'], ensures=['g_zeros == length', 'g_zero_calls == __CPROVER_old(g_zero_calls) + 1'])
+    cut = dict(assigns=[], ensures=[])
+    cutl = dict(assigns=[], ensures=['__CPROVER_return_value >= 0'])
+    callee = {AP_: ap, W_: wr, ZL: zl, B2S: cut, FIX0: cut, FIX1: cut, FDEF: cut, LEN_: cutl}
+    text = lambda s: ['g_n == %d' % len(s)] + ['g_u%d == %d' % (i, ord(ch)) for i, ch in enumerate(s)]
+    EXP = '(number & 0x7FF0000000000000ULL)'
+    MAN = '(number & 0x000FFFFFFFFFFFFFULL)'
+    NEG = '((number >> 63) != 0)'
+    base_req = ['__CPROVER_is_fresh(stream, sizeof(*stream))', 'g_n == 0 && g_zero_calls == 0', 'format.Type <= 2']
+
+    def job(name, req, ens, clause, **kw):
+        sp = dict(callee)
+        sp[R2S] = dict(requires=base_req + req, ensures=ens, assigns=['g_n', 'g_u0', 'g_u1', 'g_u2', 'g_u3', 'g_zeros', 'g_zero_calls'], harness_setup=['g_n = 0; g_zero_calls = 0;'])
+        j = dict(name='realToString<double>.' + name, unit=UNIT, fn=R2S, roots=[QR2S], specs=sp, replace=list(callee), cuts=[B2S, FIX0, FIX1, FDEF, ZL],
+                 ghosts=GHR, pre_unwind=1, solver='cadical', timeout=600, objbits=10, must_have=['postcondition'], clause=clause, cex_K=1)
+        j.update(kw)
+        return j
+    out.append(job('non-finite', ['%s == 0x7FF0000000000000ULL' % EXP],
+                   ['(%s == 0 && !%s) ==> (%s)' % (MAN, NEG, ' && '.join(text('inf'))),
+                    '(%s == 0 && %s) ==> (%s)' % (MAN, NEG, ' && '.join(text('-inf'))),
+                    '(%s != 0) ==> (%s)' % (MAN, ' && '.join(text('nan'))), 'g_zero_calls == 0'],
+                   'infinities and NaN print as inf, -inf and nan for every precision and format'))
+    out.append(job('zero.general', ['(number << 1) == 0', 'format.Type == 0 || format.Type == 2'],
+                   ['!%s ==> (%s)' % (NEG, ' && '.join(text('0'))), '%s ==> (%s)' % (NEG, ' && '.join(text('-0'))), 'g_zero_calls == 0'],
+                   'zero prints as 0 (-0 keeps its sign, like %g) in the default and semi-fixed formats'))
+    out.append(job('zero.fixed', ['(number << 1) == 0', 'format.Type == 1', 'format.Precision >= 1'],
+                   ['!%s ==> (%s)' % (NEG, ' && '.join(text('0.'))), '%s ==> (%s)' % (NEG, ' && '.join(text('-0.'))), 'g_zero_calls == 1 && g_zeros == format.Precision'],
+                   'zero in fixed format prints 0. followed by exactly precision zeros (precision >= 1)'))
+    out.append(job('zero.fixed.precision0', ['(number << 1) == 0', 'format.Type == 1', 'format.Precision == 0'],
+                   ['!%s ==> (%s)' % (NEG, ' && '.join(text('0'))), '%s ==> (%s)' % (NEG, ' && '.join(text('-0')))],
+                   'zero in fixed format with precision 0 prints like %.0f, without a point'))
+    return out
+
+
+_jobs_c10 = jobs
+
+
+def jobs(tier):
+    return _jobs_c10(tier) + r2s_jobs()
